@@ -449,6 +449,7 @@ class GenCfg:
     cross_refs: bool = True
     inheritance: bool = False
     docs: bool = False
+    foreign: bool = False
 
 
 def random_pkg(rng, cfg: GenCfg) -> Pkg:
@@ -486,6 +487,8 @@ def random_pkg(rng, cfg: GenCfg) -> Pkg:
                 epriv = priv and cfg.private_enums
                 e = En(names.fresh("E", private=epriv, cls=True), [names.fresh("V").upper() for _ in range(rng.randint(0, 4))])
                 m.decls.append(e)
+                if not e.name.startswith("_"):
+                    public_classes.append((m, e.name))  # enums are types too
         pkg.modules.append(m)
     # re-exports
     for m in pkg.modules:
@@ -520,14 +523,23 @@ def _add_reexport(rng, names, pkg: Pkg, m: Mod, d, form: str) -> None:
             lst.append(Reexport("modalias", m.qname, None, names.fresh("ma"), style))
 
 
+FOREIGN = [("pathlib", "Path"), ("decimal", "Decimal"), ("fractions", "Fraction"), ("argparse", "Namespace"), ("random", "Random"), ("threading", "Thread"), ("logging", "Logger"), ("string", "Template"), ("pathlib", "PurePath")]
+
+
 def _type_ref(rng, public_classes, m: Mod, cfg: GenCfg) -> str:
+    if cfg.foreign and rng.random() < 0.15:
+        mod, name = rng.choice(FOREIGN)
+        line = f"from {mod} import {name}"
+        if line not in m.imports:
+            m.imports.append(line)
+        return name
     if cfg.cross_refs and public_classes and rng.random() < 0.35:
         src, cname = rng.choice(public_classes)
         if src is not m:
             line = f"from {src.qname} import {cname}"
             if line not in m.imports:
                 m.imports.append(line)
-        elif not any(isinstance(d, Cls) and d.name == cname for d in m.decls):
+        elif not any(isinstance(d, (Cls, En)) and d.name == cname for d in m.decls):
             return "int"
         return cname
     return rng.choice(["int", "str", "float", "bool", "list[int]", "dict[str, int]", "int | None"])
@@ -564,3 +576,103 @@ def _random_cls(rng, names, priv, public_classes, m, cfg, depth) -> Cls:
         for _ in range(rng.choice([1, 1, 2, 3])):
             c.nested.append(_random_cls(rng, names, rng.random() < cfg.p_private_decl, public_classes, m, cfg, depth + 1))
     return c
+
+
+# ------------------------------------------------------------------------------------------ cross references (phase 3)
+
+
+def ref_category(pkg: Pkg, pubs: dict, user_mod: Mod, target_mod: Mod, target) -> str:
+    """How a reference from ``user_mod`` to the top-level class/enum ``target`` of ``target_mod`` is situated."""
+    tid = "/".join((*target_mod.pkg, target_mod.name, target.name))
+    pub = pubs[tid]
+    if pub.public is not True:
+        return "target-not-public"
+    plain = False
+    alias = False
+    moved_module = False
+    for _p, res in pkg.inits.items():
+        for r in res:
+            if r.module == target_mod.qname:
+                if r.form == "name" and r.name == target.name:
+                    if r.alias:
+                        alias = True
+                    else:
+                        plain = True
+                elif r.form in ("star", "modalias"):
+                    moved_module = True
+    same = user_mod is target_mod
+    if alias:
+        return "target-aliased"
+    if moved_module:
+        return "target-module-moved"
+    if plain:
+        return "target-moved-same-module" if same else "target-moved-other-module"
+    return "plain-same-module" if same else "plain-other-module"
+
+
+def assign_cross_refs(rng, pkg: Pkg, allowed: set, p: float = 0.4) -> dict:
+    """Replace parameter annotations by references to classes/enums of the package whose category is allowed.
+    Returns the count of references made per category."""
+    pubs = publicity(pkg)
+    targets = [(m, d) for m in pkg.modules for d in m.decls if isinstance(d, (Cls, En))]
+    counts: dict = {}
+    if not targets:
+        return counts
+    for m in pkg.modules:
+        fns = []
+        for d in m.decls:
+            if isinstance(d, Fn):
+                fns.append(d)
+            elif isinstance(d, Cls):
+                fns += [f for f in d.methods if f.role != "prop"]
+        for f in fns:
+            for prm in f.params:
+                if rng.random() > p:
+                    continue
+                tm, t = rng.choice(targets)
+                if tm is m and m.decls.index(t) > max((m.decls.index(d) for d in m.decls if d is f or (isinstance(d, Cls) and f in d.methods)), default=0) and False:
+                    continue
+                cat = ref_category(pkg, pubs, m, tm, t)
+                if cat not in allowed:
+                    continue
+                if tm is not m:
+                    line = f"from {tm.qname} import {t.name}"
+                    if line not in m.imports:
+                        m.imports.append(line)
+                prm.anno = t.name
+                prm.default = None
+                counts[cat] = counts.get(cat, 0) + 1
+        # class attributes and results as further reference positions
+        for d in m.decls:
+            if not isinstance(d, Cls):
+                continue
+            for a in d.cattrs:
+                if rng.random() > p / 2:
+                    continue
+                tm, t = rng.choice(targets)
+                if t is d:
+                    continue
+                cat = ref_category(pkg, pubs, m, tm, t)
+                if cat not in allowed:
+                    continue
+                if tm is not m:
+                    line = f"from {tm.qname} import {t.name}"
+                    if line not in m.imports:
+                        m.imports.append(line)
+                a.anno = t.name
+                a.value = None
+                counts[cat + "@attr"] = counts.get(cat + "@attr", 0) + 1
+            for f in d.methods:
+                if f.role == "prop" or rng.random() > p / 3:
+                    continue
+                tm, t = rng.choice(targets)
+                cat = ref_category(pkg, pubs, m, tm, t)
+                if cat not in allowed:
+                    continue
+                if tm is not m:
+                    line = f"from {tm.qname} import {t.name}"
+                    if line not in m.imports:
+                        m.imports.append(line)
+                f.ret = t.name
+                counts[cat + "@result"] = counts.get(cat + "@result", 0) + 1
+    return counts
